@@ -48,6 +48,8 @@ def safe_name(rng):
 
 def gen_ranking(rng, kind):
     n = rng.randint(1, 6)
+    if rng.random() < 0.03:
+        n = rng.randint(12, 30)   # a few long rankings
     if kind == "int":
         els = rng.sample(range(0, 60), n)
     else:
